@@ -110,6 +110,7 @@ class PathMgr:
         self.sub_bases: List[int] = []
         self.hint_alt: Dict[int, List[ClassInfo]] = {}
         self.merged_dicts: Dict[int, Any] = {}
+        self.base_facts: Dict[int, Any] = {}
         self.canon_map: Dict[int, Any] = {}
         self.lazy_branching = False
         self.model_cache: List[Any] = []
